@@ -91,9 +91,9 @@ def buildFor (cfg : Cfg) (p : Parser) : Except Err Bytes :=
 /-- what a completely received first request is turned into -/
 def emitFirst (cfg : Cfg) (p : Parser) : Except Err Bytes :=
   if !isProxyRequest p then .error .notProxy
-  else if p.isTunnel then .error .tunnel
   else if (p.host.getD []).isEmpty then .error .noHost
   else if !Px.Url.utf8Valid (p.host.getD []) then .error .noHost     -- `text_(host)` raises in connect_upstream
+  else if p.isTunnel then .error .tunnel                             -- after connect_upstream: 200 to the client, relay
   else buildFor cfg (treatFirst cfg p)
 
 /-- what a completely received follow-up request is turned into -/
@@ -125,5 +125,90 @@ def forwardLater' (cfg : Cfg) (segs : List Bytes) : Except Err (Bytes × List By
 
 def forwardLater (cfg : Cfg) (segs : List Bytes) : Except Err Bytes :=
   (forwardLater' cfg segs).map (·.1)
+
+/-! ## the connection: every client write, requests sharing a segment included
+
+`HttpProtocolHandler.handle_data` per client write (= one `recv()` result): the first request is
+fed to `self.request`; when it completes it is forwarded and what its parser left over is handed to
+`HttpProxyPlugin.on_client_data`, which loops (`_handle_pipeline_data`) over every complete follow-up
+request of the write.  An exception anywhere in a write tears the connection down before the
+upstream queue is flushed: nothing queued during that write reaches the origin. -/
+
+/-- what a write makes the proxy queue for the origin: a re-serialised request, or client bytes
+    relayed verbatim (after CONNECT / after a follow-up upgrade request) -/
+inductive Emit
+  | built (x : Bytes)
+  | raw (x : Bytes)
+  deriving DecidableEq, Repr
+
+def Emit.bytes : Emit → Bytes
+  | .built x => x
+  | .raw x => x
+
+inductive Conn
+  | first (p : Parser)            -- `self.request` not complete yet
+  | later (pp : Option Parser)    -- `self.pipeline_request` (partial follow-up, if any)
+  | relay                         -- tunnel / upgraded: client bytes are queued for the origin as they are
+  | dead                          -- torn down
+  deriving DecidableEq, Repr
+
+/-- `HttpParser.is_connection_upgrade` -/
+def isUpgrade (p : Parser) : Bool :=
+  p.version == some Px.Gen.http11 && hasHeader p (b "Connection") && hasHeader p (b "Upgrade")
+
+/-- the `while remaining` loop of `on_client_data` over `_handle_pipeline_data`; `none` = an
+    exception escaped (parse error, `build` assertion).  Fuel: every round consumes a request. -/
+def laterLoop (cfg : Cfg) : Nat → Option Parser → Bytes → List Emit → Option (List Emit × Conn)
+  | 0, pp, _, acc => some (acc, .later pp)
+  | fuel + 1, pp, raw, acc =>
+    if raw.isEmpty then some (acc, .later pp)
+    else
+      match parse pcfg (pp.getD (init .request)) raw with
+      | .error _ => none
+      | .ok p' =>
+        if p'.state == .complete then
+          let remaining := p'.buffer.getD []
+          let p'' := { p' with buffer := none }
+          match emitLater cfg p'' with
+          | .error _ => none
+          | .ok out =>
+            if isUpgrade (treatLater cfg p'') then
+              some (acc ++ [.built out] ++ (if remaining.isEmpty then [] else [.raw remaining]), .relay)
+            else laterLoop cfg fuel none remaining (acc ++ [.built out])
+        else some (acc, .later (some p'))
+
+def laterWrite (cfg : Cfg) (pp : Option Parser) (raw : Bytes) (acc : List Emit) : Option (List Emit × Conn) :=
+  laterLoop cfg (((pp.getD (init .request)).buffer.getD []).length + raw.length + 1) pp raw acc
+
+/-- one client write while the first request is being received -/
+def firstWrite (cfg : Cfg) (p : Parser) (raw : Bytes) : Option (List Emit × Conn) :=
+  match parse pcfg p raw with
+  | .error _ => none
+  | .ok p' =>
+    if p'.state != .complete then some ([], .first p')
+    else
+      let remaining := p'.buffer.getD []
+      match emitFirst cfg p' with
+      | .error .tunnel => some (if remaining.isEmpty then [] else [.raw remaining], .relay)
+      | .error _ => none
+      | .ok out => laterWrite cfg none remaining [.built out]
+
+/-- one client write: what reaches the origin, and the connection afterwards -/
+def Conn.step (cfg : Cfg) : Conn → Bytes → List Emit × Conn
+  | .first p, raw => (firstWrite cfg p raw).getD ([], .dead)
+  | .later pp, raw => (laterWrite cfg pp raw []).getD ([], .dead)
+  | .relay, raw => ([.raw raw], .relay)
+  | .dead, _ => ([], .dead)
+
+/-- a sequence of client writes: the emissions per write, and the final state -/
+def Conn.feed (cfg : Cfg) : Conn → List Bytes → List (List Emit) × Conn
+  | c, [] => ([], c)
+  | c, x :: xs =>
+    let r := Conn.step cfg c x
+    let rs := Conn.feed cfg r.2 xs
+    (r.1 :: rs.1, rs.2)
+
+/-- a fresh client connection -/
+def Conn.start : Conn := .first (init .request)
 
 end Px.Forward
